@@ -312,7 +312,7 @@ HARNESSES = [
     Harness("C12.multi_sign", multi_sign, functions=_F_COMMON + _F_MULTI, assumptions=_A + ["volumetric driving force > 0; no elastic strain energy"],
             stubs=_S_MULTI, bounds={"classes": "nb", "solutes": "ne", "phases": "nph (the last one analysed)"},
             params={"quick": [{"nb": 2, "shape": "sphere", "ne": 2}, {"nb": 2, "shape": "needle", "ne": 2, "nph": 2}, {"nb": 3, "shape": "plate", "ne": 3}],
-                    "thorough": [{"nb": 4, "shape": sh, "ne": ne, "nph": 1 + (ne == 3)} for sh in ("sphere", "needle", "plate") for ne in (2, 3)]}),
+                    "thorough": [{"nb": 5, "shape": sh, "ne": ne, "nph": 1 + (ne == 3)} for sh in ("sphere", "needle", "plate") for ne in (2, 3)] + [{"nb": 3, "shape": "needle", "ne": 2, "nph": 3}]}),
     Harness("C12.multi_sign_strain", multi_sign, functions=_F_COMMON + _F_MULTI, assumptions=_A + ["volumetric driving force > 0; constant elastic strain energy >= 0"],
             stubs=_S_MULTI, bounds={"classes": "nb", "solutes": "ne", "phases": 1},
             params={"quick": [{"nb": 2, "shape": "sphere", "ne": 2, "strain": True}],
@@ -324,6 +324,7 @@ HARNESSES = [
             params={"quick": [{"nb": 2, "shape": "sphere", "strain": True, "eff": False, "sentinel": False},
                               {"nb": 2, "shape": "needle", "strain": True, "eff": False, "sentinel": True, "nph": 2},
                               {"nb": 2, "shape": "sphere", "strain": False, "eff": True, "sentinel": False}],
-                    "thorough": [{"nb": 3, "shape": sh, "strain": True, "eff": False, "sentinel": se} for sh in ("sphere", "plate") for se in (False, True)] +
+                    "thorough": [{"nb": 4, "shape": sh, "strain": True, "eff": False, "sentinel": se, "nph": 1 + (sh == "plate")} for sh in ("sphere", "plate") for se in (False, True)] +
+                                [{"nb": 3, "shape": "sphere", "strain": False, "eff": True, "sentinel": False}] +
                                 [{"nb": 2, "shape": "needle", "strain": True, "eff": True, "sentinel": True, "nph": 2}]}),
 ]
